@@ -1166,8 +1166,25 @@ theorem wfO_hset (k f v : Bytes) (r : List Bytes) (x y : Bool) :
   | none => rw [hp] at e; cases e
   | some l => rw [hp] at e; cases e; rfl
 
+macro "wf_leaf0" : tactic => `(tactic| (repeat' (first
+  | exact wfO_none
+  | exact wfO_some rfl
+  | exact wfO_pure rfl
+  | (refine wfO_map fun _ => rfl)
+  | (refine wfO_bind fun _ => ?_)
+  | (refine wfO_bind' fun _ => ?_)
+  | (refine wfO_ite ?_ ?_)
+  | split
+  | dsimp only)))
+
+/-- LMPOP's argument list (also BLMPOP's after the timeout) never yields a creating command -/
+theorem wfO_parseLmpop (a : List Bytes) : wfO (parseLmpop a) := by
+  unfold parseLmpop
+  wf_leaf0
+
 macro "wf_leaf" : tactic => `(tactic| (repeat' (first
   | exact wfO_none
+  | exact wfO_parseLmpop _
   | exact wfO_hset _ _ _ _ _ _
   | exact wfO_some rfl
   | exact wfO_pure rfl
@@ -1182,7 +1199,7 @@ theorem parseCmd_wf (name : Bytes) (args : List Bytes) (cmd : Cmd) (h : parseCmd
     cmd.wf = true := by
   unfold parseCmd at h
   extract_lets n at h
-  iterate 106 ((rcases ite_some_cases h with ⟨-, h'⟩ | ⟨-, h'⟩ <;> clear h <;> (have h := h'; clear h')); rotate_left)
+  iterate 107 ((rcases ite_some_cases h with ⟨-, h'⟩ | ⟨-, h'⟩ <;> clear h <;> (have h := h'; clear h')); rotate_left)
   · cases h
   all_goals (refine (?_ : wfO _) cmd h; clear h)
   all_goals wf_leaf
